@@ -35,6 +35,11 @@ func checkGuardedBy(p *Prog, r *Report, gs *guardSpec, rulePrefix string, scope 
 			r.OK(rulePrefix+".guarded", construct, pos, "exempt: "+a.Exempt, false)
 			continue
 		}
+		if a.Need == 3 {
+			r.Violation(rulePrefix+".reentrant", fmt.Sprintf("%s: %s", k, a.Field), pos,
+				fmt.Sprintf("the lock is acquired while this goroutine already holds it (mode %s, calling context: entered with {%s}): sync.RWMutex is not reentrant - a second Lock deadlocks at once, a nested RLock deadlocks as soon as a writer queues up in between", modeName[a.Held], a.Entry))
+			continue
+		}
 		if a.Held >= a.Need {
 			r.OK(rulePrefix+".guarded", construct, pos,
 				fmt.Sprintf("needs %s on %s, holds %s (context: entered with {%s})", modeName[a.Need], a.Lock, modeName[a.Held], a.Entry), true)
